@@ -459,10 +459,42 @@ fn hid(s: &str) -> String {
 #[derive(Default)]
 struct Facts {
     nonfinite: bool,
-    odd_attr_name: bool,
     depth: usize,
     nodes: usize,
     records: usize,
+    /// shapes named by the signatures in known_findings/C09.json
+    feat: std::collections::BTreeSet<&'static str>,
+}
+
+/// Independent of swimos_model::identifier (which is code under test): the documented identifier
+/// grammar (XML name characters plus '-' and digits after the first character, not a keyword).
+fn plain_name(name: &str) -> bool {
+    fn start(c: char) -> bool {
+        let u = c as u32;
+        c.is_ascii_alphabetic()
+            || c == '_'
+            || u == 0xb7
+            || (0xc0..=0xd6).contains(&u)
+            || (0xd8..=0xf6).contains(&u)
+            || (0xf8..=0x37d).contains(&u)
+            || (0x37f..=0x1fff).contains(&u)
+            || (0x200c..=0x200d).contains(&u)
+            || (0x203f..=0x2040).contains(&u)
+            || (0x2070..=0x218f).contains(&u)
+            || (0x2c00..=0x2fef).contains(&u)
+            || (0x3001..=0xd7ff).contains(&u)
+            || (0xf900..=0xfdcf).contains(&u)
+            || (0xfdf0..=0xfffd).contains(&u)
+            || (0x10000..=0xeffff).contains(&u)
+    }
+    if name == "true" || name == "false" {
+        return false;
+    }
+    let mut cs = name.chars();
+    match cs.next() {
+        Some(c) if start(c) => cs.all(|c| start(c) || c == '-' || c.is_ascii_digit()),
+        _ => false,
+    }
 }
 
 fn facts(v: &Value, d: usize, f: &mut Facts) {
@@ -472,9 +504,20 @@ fn facts(v: &Value, d: usize, f: &mut Facts) {
         Value::Float64Value(x) if !x.is_finite() => f.nonfinite = true,
         Value::Record(attrs, items) => {
             f.records += 1;
+            if !attrs.is_empty() && matches!(items.as_slice(), [Item::ValueItem(Value::Record(_, _))]) {
+                f.feat.insert("solo_rec_item");
+            }
+            if matches!(items.as_slice(), [Item::ValueItem(Value::Extant)]) {
+                f.feat.insert("solo_extant_item");
+            }
             for a in attrs {
-                if !swimos_model::identifier::is_identifier(a.name.as_str()) {
-                    f.odd_attr_name = true;
+                if !plain_name(a.name.as_str()) {
+                    f.feat.insert("odd_attr");
+                }
+                if let Value::Record(at, its) = &a.value {
+                    if !at.is_empty() && matches!(its.as_slice(), [Item::Slot(_, _)]) {
+                        f.feat.insert("attr_body_solo_slot");
+                    }
                 }
                 facts(&a.value, d + 1, f);
             }
@@ -482,6 +525,11 @@ fn facts(v: &Value, d: usize, f: &mut Facts) {
                 match it {
                     Item::ValueItem(v) => facts(v, d + 1, f),
                     Item::Slot(k, v) => {
+                        if let Value::Record(at, its) = k {
+                            if !at.is_empty() && its.is_empty() {
+                                f.feat.insert("attrs_only_key");
+                            }
+                        }
                         facts(k, d + 1, f);
                         facts(v, d + 1, f);
                     }
@@ -490,6 +538,10 @@ fn facts(v: &Value, d: usize, f: &mut Facts) {
         }
         _ => {}
     }
+}
+
+fn feat_json(f: &Facts) -> J {
+    J::Array(f.feat.iter().map(|s| json!(s)).collect())
 }
 
 // ------------------------------------------------------------------------------------------------
@@ -690,8 +742,19 @@ struct Plans {
 fn plans_for(n: usize, spec: &J) -> Plans {
     let mut list: Vec<Vec<usize>> = vec![];
     if spec["single"].as_bool().unwrap_or(false) {
-        for k in 1..n {
-            list.push(vec![k]);
+        // every single cut; beyond max_single cuts: all cuts in the first and last 48 bytes and an even stride between
+        let cap = spec["max_single"].as_u64().unwrap_or(u64::MAX) as usize;
+        if n <= 1 || n - 1 <= cap {
+            for k in 1..n {
+                list.push(vec![k]);
+            }
+        } else {
+            let stride = (n / cap.max(1)).max(1);
+            for k in 1..n {
+                if k <= 48 || k + 48 >= n || k % stride == 0 {
+                    list.push(vec![k]);
+                }
+            }
         }
     }
     if let Some(ms) = spec["multi"].as_array() {
@@ -736,6 +799,9 @@ where
     let (wl0r, left0) = run_withlen(T::make_recognizer(), bytes, &[], 0, &mut calls0);
     let wl0 = idf(&wl0r);
     out.insert("n".into(), json!(n));
+    // the frame starts (after blanks) with an unquoted primitive token: the decoder is in state Init when it meets it
+    let first = bytes.iter().copied().find(|b| !matches!(b, b' ' | b'\t' | b'\n' | b'\r'));
+    out.insert("bare".into(), json!(matches!(first, Some(b) if b != b'"' && b != b'@' && b != b'{')));
     out.insert("plans".into(), json!(plans.list.len()));
     out.insert("rd0".into(), json!(rd0));
     out.insert("wl0".into(), json!(wl0));
@@ -827,7 +893,7 @@ fn value_row(v: &Value, spec: &J, with_text: bool) -> J {
         let r = one_shot(&text);
         let back = res_id(&r);
         let mut o = json!({"p": PRINTERS[p], "len": text.len(), "back": back, "tid": hid(&text)});
-        if with_text {
+        if with_text || back != vid {
             o["text"] = json!(text);
         }
         if let Err(e) = &r {
@@ -844,24 +910,26 @@ fn value_row(v: &Value, spec: &J, with_text: bool) -> J {
                 let t2 = print_with(q, w);
                 let r2 = one_shot(&t2);
                 let mut a = json!({"p": PRINTERS[q], "back": res_id(&r2)});
-                if res_id(&r2) != wid && with_text {
+                let mut unstable = false;
+                if res_id(&r2) != wid {
                     a["text"] = json!(t2);
-                    a["norm"] = json!(wc);
+                    unstable = true;
                 }
                 again.push(a);
+                if unstable || with_text {
+                    o["norm_cv"] = to_cv(w);
+                    o["norm"] = json!(wc);
+                }
             }
             o["again"] = J::Array(again);
-            o["norm_odd_attr"] = json!(f2.odd_attr_name);
-            if with_text {
-                o["norm_cv"] = to_cv(w);
-            }
-            o["norm_nonfinite"] = json!(f2.nonfinite);
+            o["feat"] = feat_json(&f2);
+            o["nf"] = json!(f2.nonfinite);
         }
         pr.push(o);
         texts.push(text);
     }
     let mut row = json!({
-        "k": "value", "vid": vid, "nonfinite": f.nonfinite, "odd_attr": f.odd_attr_name,
+        "k": "value", "vid": vid, "nonfinite": f.nonfinite, "feat": feat_json(&f),
         "depth": f.depth, "nodes": f.nodes, "records": f.records, "pr": pr,
     });
     {
@@ -873,15 +941,17 @@ fn value_row(v: &Value, spec: &J, with_text: bool) -> J {
             row["ref"] = json!(rt);
         }
     }
-    if with_text {
+    let any_bad = row["pr"].as_array().unwrap().iter().any(|o| o["back"] != row["vid"] || o.get("norm_cv").is_some());
+    if with_text || any_bad {
         row["canon"] = json!(cs);
         row["cv"] = to_cv(v);
     }
     if !spec.is_null() {
         // chunk independence on the compact text (what the wire carries) and on the pretty text (new lines)
         let mut ch = vec![];
-        for p in [1usize, 2usize] {
-            if p == 2 && texts[2] == texts[1] {
+        let which: Vec<usize> = spec["texts"].as_array().map(|a| a.iter().map(|x| x.as_u64().unwrap() as usize).collect()).unwrap_or_else(|| vec![1]);
+        for p in which {
+            if p != 1 && texts[p] == texts[1] {
                 continue;
             }
             let bytes = texts[p].as_bytes();
@@ -929,7 +999,7 @@ fn text_row(text_bytes: &[u8], spec: &J, with_text: bool) -> J {
                 let sub = value_row(w, &J::Null, with_text);
                 row["vid"] = sub["vid"].clone();
                 row["nonfinite"] = sub["nonfinite"].clone();
-                row["odd_attr"] = sub["odd_attr"].clone();
+                row["feat"] = sub["feat"].clone();
                 row["nodes"] = sub["nodes"].clone();
                 row["depth"] = sub["depth"].clone();
                 row["pr"] = sub["pr"].clone();
@@ -1152,8 +1222,11 @@ where
         }
         pr.push(o);
     }
-    let mut row = json!({"k": "typed", "vid": vid, "pr": pr});
-    if with_text {
+    let mut f = Facts::default();
+    facts(&v.structure(), 0, &mut f);
+    let mut row = json!({"k": "typed", "vid": vid, "pr": pr, "feat": feat_json(&f)});
+    let any_bad = row["pr"].as_array().unwrap().iter().any(|o| o["back"] != row["vid"]);
+    if with_text || any_bad {
         row["dbg"] = json!(dbg);
     }
     if !spec.is_null() {
@@ -1329,12 +1402,29 @@ impl RecognizerReadable for ExactValue {
     }
 }
 
+fn is_produced(v: &Value) -> bool {
+    let mut rt = String::new();
+    ref_text(v, &mut rt);
+    matches!(one_shot(&rt), Ok(w) if canon_s(&w) == canon_s(v))
+}
+
 fn typed_obs_value(v: Value, spec: &J, wt: bool) -> J {
-    typed_obs(ExactValue(v), spec, wt, false)
+    // only model values the parser can produce are required to come back exactly
+    let produced = is_produced(&v);
+    let mut row = typed_obs(ExactValue(v), spec, wt, false);
+    if !produced {
+        row["skip"] = json!(true);
+    }
+    row
 }
 
 fn typed_obs_dbg_eq(v: Generic, spec: &J, wt: bool) -> J {
-    typed_obs(v, spec, wt, true)
+    let produced = is_produced(&v.value);
+    let mut row = typed_obs(v, spec, wt, true);
+    if !produced {
+        row["skip"] = json!(true);
+    }
+    row
 }
 
 #[derive(Clone)]
@@ -1467,10 +1557,60 @@ fn token(c: &mut Concretiser, t: &str, out: &mut String) {
     }
 }
 
-fn toks_text(c: &mut Concretiser, toks: &J) -> String {
+/// Token sequences come from the parser model (Gen_ReconChunk): lit prim sep colon nl rb rp attr0 attrp lb,
+/// plus the ill-formed fragments.  `style` chooses the blanks between tokens (never significant
+/// except the line break, which is a token of its own).
+fn toks_text(c: &mut Concretiser, toks: &J, style: usize) -> String {
     let mut out = String::new();
-    for t in toks.as_array().unwrap() {
-        token(c, t.as_str().unwrap(), &mut out);
+    let toks: Vec<&str> = toks.as_array().unwrap().iter().map(|t| t.as_str().unwrap()).collect();
+    let n = toks.len();
+    for (i, t) in toks.iter().enumerate() {
+        let last = i + 1 == n;
+        match *t {
+            "lit" => token(c, "str", &mut out),
+            "prim" => {
+                let k = ["id", "int", "float", "bool", "blob", "hex", "expf", "id", "int"][(c.salt + c.counter) % 9];
+                c.counter += 1;
+                token(c, k, &mut out)
+            }
+            "sep" => out.push(if (c.salt + i) % 3 == 0 { ';' } else { ',' }),
+            "attr0" => {
+                // a quoted name directly before the end of input is read by the final-segment parser, which
+                // only knows identifiers: keep that quirk out of the generated domain (it is reported separately)
+                if !last && (c.salt + c.counter) % 4 == 3 {
+                    token(c, "qattr", &mut out)
+                } else {
+                    token(c, "attr", &mut out)
+                }
+            }
+            "attrp" => {
+                if (c.salt + c.counter) % 4 == 3 {
+                    token(c, "qattr", &mut out)
+                } else {
+                    token(c, "attr", &mut out)
+                }
+                out.push('(');
+            }
+            other => token(c, other, &mut out),
+        }
+        if !last {
+            let next = toks[i + 1];
+            let need = matches!(*t, "attr0" | "prim") && matches!(next, "prim" | "lit" | "attr0" | "attrp");
+            match style {
+                0 => {
+                    if need {
+                        out.push(' ')
+                    }
+                }
+                1 => out.push(' '),
+                _ => {
+                    let k = (c.salt + i * 7) % 4;
+                    if need || k > 0 {
+                        out.push_str(["", " ", "\t", "  "][k.max(if need { 1 } else { 0 })]);
+                    }
+                }
+            }
+        }
     }
     out
 }
@@ -1551,6 +1691,22 @@ fn mutate(bytes: &mut Vec<u8>, op: &J) {
     }
 }
 
+fn guarded<F: FnOnce() -> J>(input: J, f: F) -> J {
+    match std::panic::catch_unwind(std::panic::AssertUnwindSafe(f)) {
+        Ok(v) => v,
+        Err(e) => {
+            let msg = if let Some(s) = e.downcast_ref::<String>() {
+                s.clone()
+            } else if let Some(s) = e.downcast_ref::<&str>() {
+                s.to_string()
+            } else {
+                "panic".to_string()
+            };
+            json!({ "panic": msg, "input": input })
+        }
+    }
+}
+
 fn run_case(case: &J) -> J {
     let salt = case["salt"].as_u64().unwrap_or(0) as usize;
     let spec = &case["chunk"];
@@ -1559,26 +1715,30 @@ fn run_case(case: &J) -> J {
         "value" => {
             let mut c = Concretiser { salt, counter: 0 };
             let v = c.value(&case["v"]);
-            value_row(&v, spec, wt)
+            guarded(json!({"k": "value", "cv": to_cv(&v)}), || value_row(&v, spec, wt))
         }
         "cval" => {
             let v = from_cv(&case["cv"]);
-            value_row(&v, spec, wt)
+            guarded(json!({"k": "value", "cv": to_cv(&v)}), || value_row(&v, spec, wt))
         }
         "typed" => {
             let syms: Vec<u64> = case["syms"].as_array().map(|a| a.iter().map(|x| x.as_u64().unwrap_or(0)).collect()).unwrap_or_default();
-            typed_row(case["ty"].as_str().unwrap(), &syms, salt, spec, wt)
+            guarded(json!({"k": "typed", "ty": case["ty"], "syms": case["syms"], "salt": salt}), || typed_row(case["ty"].as_str().unwrap(), &syms, salt, spec, wt))
         }
         "toks" => {
             let mut c = Concretiser { salt, counter: 0 };
-            let text = toks_text(&mut c, &case["toks"]);
+            let text = toks_text(&mut c, &case["toks"], case["style"].as_u64().unwrap_or(0) as usize);
             let mut bytes = text.into_bytes();
             if let Some(ms) = case["mut"].as_array() {
                 for m in ms {
                     mutate(&mut bytes, m);
                 }
             }
-            text_row(&bytes, spec, wt)
+            let echo = match std::str::from_utf8(&bytes) {
+                Ok(t) => json!({"k": "text", "text": t}),
+                Err(_) => json!({"k": "text", "hex": bytes.iter().map(|b| format!("{:02x}", b)).collect::<String>()}),
+            };
+            guarded(echo, || text_row(&bytes, spec, wt))
         }
         "raw" => {
             let mut bytes = if let Some(h) = case["hex"].as_str() { hex_bytes(h) } else { case["text"].as_str().unwrap().as_bytes().to_vec() };
@@ -1587,7 +1747,11 @@ fn run_case(case: &J) -> J {
                     mutate(&mut bytes, m);
                 }
             }
-            text_row(&bytes, spec, wt)
+            let echo = match std::str::from_utf8(&bytes) {
+                Ok(t) => json!({"k": "text", "text": t}),
+                Err(_) => json!({"k": "text", "hex": bytes.iter().map(|b| format!("{:02x}", b)).collect::<String>()}),
+            };
+            guarded(echo, || text_row(&bytes, spec, wt))
         }
         other => panic!("HARNESS: unknown case kind {}", other),
     }
